@@ -593,54 +593,74 @@ func TestVerif_C07_h2budget(t *testing.T) {
 		{"endless-data-beyond-content-length", append(append([]byte{}, settings...), clHead...), c07Frame{-1, 0, 0, 1, bytes.Repeat([]byte("d"), 1000)}.bytes(), 16 << 20, true},
 		{"endless-ping", settings, c07Frame{-1, 6, 0, 0, []byte("12345678")}.bytes(), -1, false},
 	}
+	// the five floods are independent (own client, own connection, own byte counter): run them side
+	// by side and record the verdicts afterwards
+	type bres struct {
+		kind string
+		got  int64
+	}
+	results := make([]bres, len(cases))
+	var wg sync.WaitGroup
 	for ci, bc := range cases {
-		var reads int64
-		c := C().SetTimeout(8 * time.Second).EnableH2C().EnableForceHTTP2().SetLogger(nil).SetHTTP2MaxHeaderListSize(hl)
-		c.SetDialTLS(func(ctx context.Context, network, addr string) (net.Conn, error) {
-			conn, err := net.Dial(network, addr)
-			if err != nil {
-				return nil, err
+		wg.Add(1)
+		go func(ci int, bc bcase) {
+			defer wg.Done()
+			var reads int64
+			to := 8 * time.Second
+			if bc.bound < 0 {
+				to = 4 * time.Second // a flood no limit cuts off (PING): the client timeout is what ends the call
 			}
-			return &c07Conn{Conn: conn, reads: &reads}, nil
-		})
-		if !bc.read {
-			c.DisableAutoReadResponse()
-		}
-		path := fmt.Sprintf("/hb%d", ci)
-		peer.set(path, c07Script{data: bc.data, endless: bc.endless, cap: 64 << 20})
-		done := make(chan string, 1)
-		go func() {
-			ptxt, panicked := verifh.Safely(func() {
-				rp, err := c.R().Get(base + path)
-				if err != nil || rp == nil || rp.Err != nil {
-					done <- "error"
-					return
+			c := C().SetTimeout(to).EnableH2C().EnableForceHTTP2().SetLogger(nil).SetHTTP2MaxHeaderListSize(hl)
+			c.SetDialTLS(func(ctx context.Context, network, addr string) (net.Conn, error) {
+				conn, err := net.Dial(network, addr)
+				if err != nil {
+					return nil, err
 				}
-				// headers arrived; wait for the connection to die from the flood of unread data
-				time.Sleep(2 * time.Second)
-				_, rerr := io.Copy(io.Discard, rp.Body)
-				if rerr != nil {
-					done <- "error"
-				} else {
-					done <- "response"
-				}
+				return &c07Conn{Conn: conn, reads: &reads}, nil
 			})
-			if panicked {
-				done <- "panic: " + ptxt
+			if !bc.read {
+				c.DisableAutoReadResponse()
 			}
-		}()
-		var kind string
-		select {
-		case kind = <-done:
-		case <-time.After(30 * time.Second):
-			kind = "wedged"
-		}
-		got := atomic.LoadInt64(&reads)
+			path := fmt.Sprintf("/hb%d", ci)
+			peer.set(path, c07Script{data: bc.data, endless: bc.endless, cap: 64 << 20})
+			done := make(chan string, 1)
+			go func() {
+				ptxt, panicked := verifh.Safely(func() {
+					rp, err := c.R().Get(base + path)
+					if err != nil || rp == nil || rp.Err != nil {
+						done <- "error"
+						return
+					}
+					// headers arrived; wait for the connection to die from the flood of unread data
+					time.Sleep(2 * time.Second)
+					_, rerr := io.Copy(io.Discard, rp.Body)
+					if rerr != nil {
+						done <- "error"
+					} else {
+						done <- "response"
+					}
+				})
+				if panicked {
+					done <- "panic: " + ptxt
+				}
+			}()
+			var kind string
+			select {
+			case kind = <-done:
+			case <-time.After(30 * time.Second):
+				kind = "wedged"
+			}
+			results[ci] = bres{kind, atomic.LoadInt64(&reads)}
+			c.GetTransport().CloseIdleConnections()
+		}(ci, bc)
+	}
+	wg.Wait()
+	for ci, bc := range cases {
+		kind, got := results[ci].kind, results[ci].got
 		ok := kind == "error" && (bc.bound < 0 || got <= bc.bound)
 		human := fmt.Sprintf("%s -> %s after reading %d bytes (bound %d)", bc.name, kind, got, bc.bound)
 		s.Count(kind)
 		s.Observe("h2budget:"+bc.name, ok, "", true, human, human)
-		c.GetTransport().CloseIdleConnections()
 	}
 	s.Finish()
 }
